@@ -56,8 +56,8 @@ DEFAULT_UNIT = {"time": "s", "size": "B", "bw": "Bps", "bws": "Bps", "speed": "f
 # Spellings the documentation prints with an upper-case decimal kilo (XML_reference.rst: "1 KBps = 1,000 Bps").
 DOC_UPPER_K = {"bw": ["KBps", "Kbps"], "bws": ["KBps", "Kbps"]}
 
-_DECRE = re.compile(r"[ \t\n\v\f\r]*([+-]?)((?:\d+\.?\d*|\.\d+)(?:[eE][+-]?\d+)?)")
-_HEXRE = re.compile(r"[ \t\n\v\f\r]*([+-]?)(0[xX](?:[0-9a-fA-F]+\.?[0-9a-fA-F]*|\.[0-9a-fA-F]+)(?:[pP][+-]?\d+)?)")
+_DECRE = re.compile(r"[ \t\n\v\f\r]*([+-]?)((?:[0-9]+\.?[0-9]*|\.[0-9]+)(?:[eE][+-]?[0-9]+)?)")
+_HEXRE = re.compile(r"[ \t\n\v\f\r]*([+-]?)(0[xX](?:[0-9a-fA-F]+\.?[0-9a-fA-F]*|\.[0-9a-fA-F]+)(?:[pP][+-]?[0-9]+)?)")
 _SPECIAL = re.compile(r"[ \t\n\v\f\r]*[+-]?(?:inf(?:inity)?|nan(?:\([0-9a-zA-Z_]*\))?)", re.I)
 
 
@@ -84,6 +84,8 @@ def strtod_model(s):
             v = float(m.group(2))
         except OverflowError:
             v = math.inf
+        if v == 0 and re.search("[1-9]", m.group(2).lower().split("e")[0]):
+            return (0.0, s[m.end():], "range")   # underflow to zero: ERANGE territory, statement silent
         return (-v if m.group(1) == "-" else v, s[m.end():], "dec")
     return None
 
